@@ -34,6 +34,10 @@ def run(R):
             out = R.path("pad", "%s-%d.ndjson" % (variant, i))
             R.run([exe, str(R.seed + i), "300" if thorough else "80", out] + [str(b) for b in g], ok_codes=(0, 70))
             files.append(out)
+    for variant in variants:            # lengths of 2^32 + k bytes (sparse mapping)
+        out = R.path("pad", "huge-%s.ndjson" % variant)
+        R.run([R.cc("pad_driver", ["pad_driver.c"], variant), str(R.seed), "0", out, "huge"], ok_codes=(0, 70), timeout=1800)
+        files.append(out)
     total, bad = R.oracle("trace/OraclePad.tla", files, timeout=5000)
     for b in bad[:5]:
         R.violation("padding record rejected by lib/Pad.tla: %s" % json.dumps(b)[:300], {"records": [b]}, name="pad")
